@@ -197,8 +197,32 @@ func (s cstate) le(a lin, b lin, c int64) bool {
 
 func meet(a, b cstate) cstate {
 	out := cstate{}
+	// x - t <= c with t a term that is never negative (a length) is implied by x <= c, even when the other side
+	// has not mentioned t yet (a length first read inside the loop the join heads)
+	implied := func(s cstate, k pair) (int64, bool) {
+		if w, ok := s[k]; ok {
+			return w, true
+		}
+		if k.b != zeroTerm && termNonNeg(k.b) {
+			if w, ok := s[pair{k.a, zeroTerm}]; ok {
+				return w, true
+			}
+		}
+		return 0, false
+	}
 	for k, v := range a {
-		if w, ok := b[k]; ok {
+		if w, ok := implied(b, k); ok {
+			if w > v {
+				v = w
+			}
+			out[k] = v
+		}
+	}
+	for k, v := range b {
+		if _, done := out[k]; done {
+			continue
+		}
+		if w, ok := implied(a, k); ok {
 			if w > v {
 				v = w
 			}
@@ -234,10 +258,33 @@ type boundsCtx struct {
 	cellOK map[*ssa.Alloc]bool
 	// inductively verified invariants "memory term >= 0": cell ids and ".Type.field" suffixes
 	nonNeg map[string]bool
+	// package-level variables that no function of the package writes or takes the address of (only the package
+	// initialiser assigns them): every load yields the same value
+	unstableGlobal map[*ssa.Global]bool
 }
 
 func newBoundsCtx(w *World) *boundsCtx {
-	bc := &boundsCtx{w: w, mods: map[*ssa.Function]*modSet{}, cellOK: map[*ssa.Alloc]bool{}}
+	bc := &boundsCtx{w: w, mods: map[*ssa.Function]*modSet{}, cellOK: map[*ssa.Alloc]bool{}, unstableGlobal: map[*ssa.Global]bool{}}
+	for _, fn := range w.Funcs {
+		if fn.Synthetic != "" && fn.Name() == "init" {
+			continue // the package initialiser runs before anything else
+		}
+		EachInstr(fn, func(in ssa.Instruction) {
+			for _, op := range in.Operands(nil) {
+				if op == nil || *op == nil {
+					continue
+				}
+				g, isG := (*op).(*ssa.Global)
+				if !isG {
+					continue
+				}
+				if u, isLoad := in.(*ssa.UnOp); isLoad && u.Op == token.MUL && u.X == ssa.Value(g) {
+					continue
+				}
+				bc.unstableGlobal[g] = true // stored to, or its address is used in some other way
+			}
+		})
+	}
 	for _, fn := range w.Funcs {
 		ms := &modSet{cells: map[*ssa.Alloc]bool{}, fields: map[string]bool{}}
 		EachInstr(fn, func(in ssa.Instruction) {
@@ -451,6 +498,10 @@ func (te *termEnv) memKey(addr ssa.Value) (string, bool) {
 	case *ssa.FieldAddr:
 		if base, ok := te.ptrKey(a.X); ok {
 			return "f:" + base + "." + typeNameOf(deref(a.X.Type())) + "." + fieldName(a.X.Type(), a.Field), true
+		}
+	case *ssa.Global:
+		if a.Pkg != nil && a.Pkg.Pkg == te.bc.w.Types && !te.bc.unstableGlobal[a] && a.Object() != nil && !a.Object().Exported() {
+			return "g:" + a.Name(), true
 		}
 	}
 	return "", false
